@@ -114,7 +114,9 @@ func NewLedger(seed int64, traceNo int, profile string, t *world.Tracer) (*Ledge
 	for i, sc := range d.SCs {
 		ai := w.Info(sc)
 		acc := world.NewAccount(ai.Bytes, w.Shards[ai.Shard])
-		acc.Owner = append([]byte(nil), w.Addr(d.Users[(i*2)%len(d.Users)])...)
+		if !(i == len(d.SCs)-1 && traceNo%2 == 1) { // in every other trace the last contract has no recorded owner
+			acc.Owner = append([]byte(nil), w.Addr(d.Users[(i*2)%len(d.Users)])...)
+		}
 		acc.DevReward = new(big.Int).Mul(big.NewInt(int64(3+i)), d.Scale)
 		w.Shards[ai.Shard].Accounts[string(ai.Bytes)] = acc
 	}
@@ -1198,8 +1200,58 @@ func (d *Ledger) actHandover() {
 	}
 }
 
+// frozenEntry returns an account with a frozen fungible entry and that token.
+func (d *Ledger) frozenEntry() (string, []byte, bool) {
+	pf := []byte("ELRONDesdt")
+	type fe struct {
+		a string
+		t []byte
+	}
+	var l []fe
+	for _, ai := range d.W.Addrs {
+		if ai.Shard < 0 || ai.Shard >= len(d.W.Shards) || ai.Kind != "user" {
+			continue
+		}
+		acc := d.W.Shards[ai.Shard].Peek(ai.Bytes)
+		if acc == nil {
+			continue
+		}
+		for _, k := range acc.SortedKeys() {
+			if !bytes.HasPrefix([]byte(k), pf) {
+				continue
+			}
+			if e, ok := world.DecodeEntry(acc.Storage[k]); ok && len(e.Properties) == 2 && e.Properties[0]&1 == 1 {
+				l = append(l, fe{ai.Name, []byte(k)[len(pf):]})
+			}
+		}
+	}
+	if len(l) == 0 {
+		return "", nil, false
+	}
+	x := l[d.R.Intn(len(l))]
+	return x.a, x.t, true
+}
+
 func (d *Ledger) actKV() {
 	a := d.anyAcct()
+	// a holder of a frozen entry tries to rewrite that very entry (balance without the flag), as the first or a later pair
+	if fa, ft, ok := d.frozenEntry(); ok && d.chance(30) {
+		ent, _ := (&esdt.ESDigitalToken{Value: new(big.Int).Mul(big.NewInt(777), d.Scale)}).Marshal()
+		args := [][]byte{[]byte("k1"), []byte("v"), []byte("key2"), []byte("w")}
+		fk := append([]byte("ELRONDesdt"), ft...)
+		switch d.R.Intn(3) {
+		case 0:
+			args = append([][]byte{fk, ent}, args...)
+		case 1:
+			args = append(args[:2:2], append([][]byte{fk, ent}, args[2:]...)...)
+		default:
+			args = append(args, fk, ent)
+		}
+		c := d.call("SaveKeyValue", fa, fa, args...)
+		c.RAE = false
+		d.record("exec", d.shardOfName(fa), c)
+		return
+	}
 	keys := [][]byte{[]byte("k1"), []byte("key2"), []byte("ELROND"), []byte("ELRONDesdtF1"), []byte("ELRON"), []byte("elrondx"), []byte("ELRONDroleesdtN"), []byte("ELRONDnonceN"), {}, []byte("EL"), []byte("ELROND!")}
 	forged, _ := (&esdt.ESDigitalToken{Value: new(big.Int).Mul(big.NewInt(1000), d.Scale)}).Marshal()
 	forgedRoles, _ := (&esdt.ESDTRoles{Roles: [][]byte{[]byte("ESDTRoleLocalMint"), []byte("ESDTRoleNFTCreate")}}).Marshal()
@@ -1249,6 +1301,9 @@ func (d *Ledger) actAccountLevel() {
 	switch k {
 	case 0:
 		sc := d.pick(d.SCs)
+		if d.chance(12) {
+			sc = d.pick(d.Users) // an account without an owner: nobody is entitled
+		}
 		caller := d.ownerOf(sc)
 		if caller == "" || d.chance(20) {
 			caller = d.anyAcct()
@@ -1261,6 +1316,9 @@ func (d *Ledger) actAccountLevel() {
 		d.record("exec", d.shardOfName(caller), c)
 	case 1:
 		sc := d.pick(d.SCs)
+		if d.chance(8) {
+			sc = d.pick(d.Users)
+		}
 		caller := d.ownerOf(sc)
 		if caller == "" || d.chance(20) {
 			caller = d.anyAcct()
